@@ -35,6 +35,16 @@ impl VxDuration {
     pub uninterp spec fn secs(&self) -> u64;
     #[verifier::external_body] pub fn as_secs(&self) -> (r: u64) ensures r == self.secs() { unimplemented!() }
 }
+// the rest of the time API a body may consult (declared so that such a body is decided): the invoice's own timestamp is the
+// PAYEE's claim, not the signer's clock; core::cmp::max / min on durations (whole seconds modelled)
+pub uninterp spec fn inv_timestamp_secs(i: Invoice) -> u64;
+impl Invoice {
+    #[verifier::external_body] pub fn duration_since_epoch(&self) -> (r: VxDuration) ensures r.secs() == inv_timestamp_secs(*self) { unimplemented!() }
+}
+#[verifier::external_body]
+pub fn max(a: VxDuration, b: VxDuration) -> (r: VxDuration) ensures r.secs() == (if a.secs() >= b.secs() { a.secs() } else { b.secs() }) { unimplemented!() }
+#[verifier::external_body]
+pub fn min(a: VxDuration, b: VxDuration) -> (r: VxDuration) ensures r.secs() == (if a.secs() <= b.secs() { a.secs() } else { b.secs() }) { unimplemented!() }
 impl VxClock {
     // the clock read of this request (one read per request in the code under contract)
     pub uninterp spec fn now_secs(&self) -> u64;
